@@ -27,6 +27,11 @@ by the mutex held, or the thread's own data): `W.lockT` acquires `thd_mutex` *an
 `S.lock` acquires `threadcount_mutex` *and* cancels every NEW/RCMD slot, `S.time` reads the clock
 *and* takes the INTR_TIME decision, ...
 
+`St.g` is the form of the worker's first state write, probed by behaviour on every run of the check like the wait
+construct: `false` = the blind `a->state = DSH_RCMD` of the pinned source (defect F20-LOSTCANCEL), `true` = the
+repair (`if (a->state == DSH_CANCELED) result = DSH_CANCELED; else a->state = DSH_RCMD;` under thd_mutex, then
+`if (result == DSH_CANCELED) goto out;`): the worker goes through `skipL` straight to its epilogue.
+
 Outside the model (see Props/C20.lean): -k, `pthread_create` failure, the watchdog, `rcmd_create`
 failure, everything after `exit()` was called, pthread_cancel being deferred in reality.
 
@@ -51,6 +56,8 @@ inductive WP
   | idle        -- thread not created
   | started     -- created and counted; next: lock(thd_mutex), `state = DSH_RCMD`
   | rcmdL       -- holds thd_mutex; next: unlock
+  | skipL       -- (repaired worker only) holds thd_mutex, found its slot CANCELED before marking itself:
+                --   next: unlock, then straight to the epilogue (`goto out`): no connect, no state write
   | ready       -- next: rcmd_connect begins
   | connecting  -- inside rcmd_connect
   | connOk      -- connected; next: lock(thd_mutex) in `_update_connect_state`
@@ -90,6 +97,9 @@ structure St where
   v : Variant
   f : Nat             -- opt->fanout
   batch : Bool        -- sigint_terminates
+  g : Bool            -- the worker's first state write is guarded: `if (a->state == DSH_CANCELED) result =
+                      --   DSH_CANCELED; else a->state = DSH_RCMD; ... if (result == DSH_CANCELED) goto out;`
+                      --   (the repair of F20-LOSTCANCEL); false = the blind `a->state = DSH_RCMD` as pinned
   i : Nat
   dpc : DPC
   tc : Nat            -- threadcount
@@ -214,15 +224,16 @@ def dStep (s : St) : DAct → Option St
 
 /-- the local move of a worker: its next program counter; `canceled` = what the unprotected re-read
     `if (a->state == DSH_CANCELED)` in `_update_connect_state` sees -/
-def wNext (a : WAct) (p : WP) (canceled : Bool) : Option WP :=
+def wNext (g : Bool) (a : WAct) (p : WP) (canceled : Bool) : Option WP :=
   match a, p with
-  | .lockT, .started => some .rcmdL
+  | .lockT, .started => some (if g && canceled then .skipL else .rcmdL)
   | .lockT, .connOk => some .updT
   | .lockT, .connFail => some .resL
   | .lockT, .reading => some .resL
   | .lockT, .closing => some .resL
   | .time, .updT => some .updL
   | .unlockT, .rcmdL => some .ready
+  | .unlockT, .skipL => some .torn                              -- `goto out`
   | .unlockT, .updL => some (if canceled then .closing else .reading)
   | .unlockT, .resL => some .flushed
   | .connectBegin, .ready => some .connecting
@@ -235,9 +246,9 @@ def wNext (a : WAct) (p : WP) (canceled : Bool) : Option WP :=
   | _, _ => none
 
 /-- the write to `t[i].state` that goes with the move (all of them with thd_mutex held) -/
-def wWrite (a : WAct) (p : WP) (t : TS) : TS :=
+def wWrite (g : Bool) (a : WAct) (p : WP) (t : TS) : TS :=
   match a, p with
-  | .lockT, .started => .rcmd                                   -- `a->state = DSH_RCMD`: a blind write
+  | .lockT, .started => if g && t == .canceled then .canceled else .rcmd   -- blind write unless repaired
   | .lockT, .connFail => .failed                                -- `a->state = result`
   | .lockT, .reading => .done
   | .lockT, .closing => .done                                   -- result is DSH_DONE for a canceled host too
@@ -257,11 +268,11 @@ def wStep (s : St) (i : Nat) (a : WAct) : Option St :=
   match s.ws[i]? with
   | none => none
   | some p =>
-    match wNext a p (tsAt s i == .canceled) with
+    match wNext s.g a p (tsAt s i == .canceled) with
     | none => none
     | some q =>
       if (a = .lockT → s.thd = .none) ∧ (a = .lock → s.own = .none) then
-        some (wEffect i { s with ws := s.ws.set i q, ts := s.ts.set i (wWrite a p (tsAt s i)) } a)
+        some (wEffect i { s with ws := s.ws.set i q, ts := s.ts.set i (wWrite s.g a p (tsAt s i)) } a)
       else none
 
 def sStep (s : St) : SAct → Option St
@@ -326,8 +337,8 @@ def step (s : St) (l : Label) : Option St :=
   | .s a => sStep s a
   | .e a => eStep s a
 
-def init (v : Variant) (f n : Nat) (batch : Bool) (now : Nat) : St :=
-  { v := v, f := f, batch := batch, i := 0, dpc := if 0 < n then .top else .dtop, tc := 0, own := .none,
+def init (v : Variant) (g : Bool) (f n : Nat) (batch : Bool) (now : Nat) : St :=
+  { v := v, f := f, batch := batch, g := g, i := 0, dpc := if 0 < n then .top else .dtop, tc := 0, own := .none,
     thd := .none, sig := false, ws := List.replicate n .idle, ts := List.replicate n .new, spc := .off,
     pend := [], now := now, last := 0, listed := [], fwds := [], ncanc := 0, exited := none }
 
@@ -336,7 +347,8 @@ inductive Exec (s0 : St) : List Label → St → Prop
   | nil : Exec s0 [] s0
   | snoc {ls s l s'} : Exec s0 ls s → step s l = some s' → Exec s0 (ls ++ [l]) s'
 
-def Reach (v : Variant) (f n : Nat) (b : Bool) (t0 : Nat) (s : St) : Prop := ∃ ls, Exec (init v f n b t0) ls s
+def Reach (v : Variant) (g : Bool) (f n : Nat) (b : Bool) (t0 : Nat) (s : St) : Prop :=
+  ∃ ls, Exec (init v g f n b t0) ls s
 
 def run (s : St) : List Label → Option St
   | [] => some s
